@@ -19,6 +19,11 @@ def evaluate_family(text, ctx, family, nontrivial, variant="asan"):
     if res.parse_error:
         raise RuntimeError("generator produced an unparsable scenario:\n" + text + "\n" + "\n".join(res.lines[-3:]))
     if res.timed_out:
+        import hashlib, os
+        d = os.path.join(os.path.dirname(os.path.dirname(os.path.abspath(__file__))), "build", "timeouts")
+        os.makedirs(d, exist_ok=True)
+        with open(os.path.join(d, hashlib.sha1(text.encode()).hexdigest()[:12] + ".case"), "w") as fh:
+            fh.write(text)
         return Outcome(ok=True, inconclusive=True, classes=["timeout"])
     if res.crashed:
         if family == "C10":
